@@ -492,6 +492,19 @@ def tie_pairs(glyphs, name):
     return ties
 
 
+def _merge_close(pts, tol=1.0):
+    """Drop a point that lies within `tol` of its (cyclic) predecessor and has the same kind."""
+    out = []
+    for q in pts:
+        if out and out[-1][2] == q[2] and abs(out[-1][0] - q[0]) <= tol and abs(out[-1][1] - q[1]) <= tol:
+            continue
+        out.append(q)
+    while len(out) > 1 and out[0][2] == out[-1][2] and abs(out[0][0] - out[-1][0]) <= tol \
+            and abs(out[0][1] - out[-1][1]) <= tol:
+        out.pop()
+    return out
+
+
 def match_tt(a, b, any_direction=False, ties=()):
     """Greedy multiset matching of contours with tolerance; returns None if ok else a reason.
     any_direction: the source glyph has a mirrored component somewhere below it - a TrueType
@@ -638,6 +651,15 @@ def run_varsparse(case):
             # each compile rounds every master's coordinates once (<= 1/2 each); offsets of
             # nested references are rounded per level in the composite form
             why = match_tt([(p, 1.25, False) for p, _e, _m in a], [(p, 1.25, False) for p, _e, _m in b])
+            if why and "no counterpart" in why:
+                # a contour whose last point lies within a unit of its first one: once the
+                # inlined copy is rounded to integers the two coincide and the closing point is
+                # dropped (5 points against 4) - compare with such neighbours merged on both sides
+                why2 = match_tt([(_merge_close(p), 1.25, False) for p, _e, _m in a],
+                                [(_merge_close(p), 1.25, False) for p, _e, _m in b])
+                if why2 is None:
+                    bump("var_renderings_equal_after_merging_coinciding_neighbours")
+                    why = None
             if why:
                 violations.append({"mech": "var_rendering_changed", "detail": {
                     "glyph": n, "wght": w, "why": why, "references_skipped": sorted(hit),
